@@ -272,8 +272,8 @@ func (codecHTTPBody) Unmarshal(data []byte, v interface{}) error {
 func (codecHTTPBody) Name() string { return "body" }
 
 func (codecHTTPBody) ReadNext(b []byte, r io.Reader, limit int) ([]byte, int, error) {
-	var total int
-	for {
+	total := len(b) // bytes carried over from the previous call count too
+	for total < limit {
 		if len(b) == cap(b) {
 			// Add more capacity (let append pick how much).
 			b = append(b, 0)[:len(b)]
@@ -281,13 +281,15 @@ func (codecHTTPBody) ReadNext(b []byte, r io.Reader, limit int) ([]byte, int, er
 		n, err := r.Read(b[len(b):cap(b)])
 		b = b[:len(b)+n]
 		total += int(n)
-		if total > limit {
-			total = limit
+		if err == io.EOF && total > limit {
+			// More than one chunk is buffered: EOF is reported with the last.
+			return b, limit, nil
 		}
-		if err != nil || total == limit {
-			return b, total, err
+		if err != nil {
+			return b, min(total, limit), err
 		}
 	}
+	return b, limit, nil
 }
 
 func (codecHTTPBody) WriteNext(w io.Writer, b []byte) (int, error) {
